@@ -348,11 +348,23 @@ pub struct ScriptedFile {
     pub cur: crate::verif_support::LoopCursor,
     pub script: [u64; 4],
     pub k: usize,
+    /// the single data block of the end-to-end harnesses (offset, size); (0, 0) = no block expected
+    pub block: (u64, u64),
+    pub block_reads: usize,
 }
 impl BBIFileRead for ScriptedFile {
     type Reader = crate::verif_support::LoopCursor;
     fn get_block_data(&mut self, info: &BBIFileInfo, block: &Block) -> io::Result<Vec<u8>> {
-        read_block_data(info, &mut self.cur, block)
+        // same assert-then-use-the-constant treatment for the (single) data block's offset and size
+        #[cfg(not(verif_replay))]
+        let b = {
+            assert!(block.offset == self.block.0 && block.size == self.block.1, "[block_script] the reader asked for a data block other than the one the index points to");
+            Block { offset: self.block.0, size: self.block.1 }
+        };
+        #[cfg(verif_replay)]
+        let b = Block { offset: block.offset, size: block.size };
+        self.block_reads += 1;
+        read_block_data(info, &mut self.cur, &b)
     }
     fn blocks_for_cir_tree_node(&mut self, endianness: Endianness, node_offset: u64, chrom_ix: u32, start: u32, end: u32) -> io::Result<(SmallVec<[u64; 4]>, SmallVec<[Block; 4]>)> {
         #[cfg(not(verif_replay))]
@@ -401,7 +413,7 @@ fn search_handbuilt(big: bool, mode: u8) {
     // pre-order visit of the overlapping children: root, then leaf A (offset 88) and/or leaf B (offset 0)
     let script: [u64; 4] = if mode == 0 { [36, 88, 7, 7] } else if mode == 1 { [36, 0, 7, 7] } else { [36, 88, 0, 7] };
     let visits = if mode == 2 { 3 } else { 2 };
-    let mut cur = ScriptedFile { cur: crate::verif_support::LoopCursor::new(d), script, k: 0 };
+    let mut cur = ScriptedFile { cur: crate::verif_support::LoopCursor::new(d), script, k: 0, block: (0, 0), block_reads: 0 };
     let r = search_cir_tree_inner(endian(big), &mut cur, 36, q, qs, qe);
     assert!(cur.k == visits, "[visits] the search did not visit exactly the nodes whose recorded span overlaps the query");
     let (rok, got) = match r {
@@ -719,6 +731,9 @@ fn c03_cached_node_two_queries() {
     core::mem::forget(rd);
 }
 
+fn spin_a(n: u64) -> u64 { let mut i = 0; while i < n { i += 1; } i }
+fn spin_b(n: u64) -> u64 { let mut i = 0; while i < n { i += 1; } i }
+fn spin_c(n: u64) -> u64 { let mut i = 0; while i < n { i += 1; } i }
 fn spin(n: u64) -> u64 {
     let mut i = 0;
     while i < n { i += 1; }
@@ -779,3 +794,40 @@ fn probe_blocks_for_node_constprop() {
     assert!(r0 == 1 && r1 == 9);
     core::mem::forget(ch); core::mem::forget(bl); core::mem::forget(cur);
 }
+
+
+/// little-endian bigWig: [0,48) index header, [48,84) root = leaf with one block item, [84,144) a bedGraph
+/// section with three values 1.5, -2.0, 0.25 (coordinates symbolic); one chromosome "a" (id 0)
+pub fn one_block_bigwig(s: [u32; 3], e: [u32; 3]) -> BigWigRead<ScriptedFile> {
+    let big = false;
+    let vals: [f32; 3] = [1.5, -2.0, 0.25];
+    let mut d: Vec<u8> = Vec::with_capacity(160);
+    put32(&mut d, big, 0x2468_ACE0); put32(&mut d, big, 256); put64(&mut d, big, 1);
+    put32(&mut d, big, 0); put32(&mut d, big, 0); put32(&mut d, big, 1); put32(&mut d, big, 0);
+    put64(&mut d, big, 144); put32(&mut d, big, 1024); put32(&mut d, big, 0);
+    d.push(1); d.push(0); put16(&mut d, big, 1);
+    // the leaf item's recorded span is concrete and generous (all of chromosome 0): whether the block is fetched
+    // is then decided during symbolic execution; the section's own span and the values are symbolic
+    put_leaf(&mut d, big, 0, 0, 1, 0, 84, 60);
+    put32(&mut d, big, 0); put32(&mut d, big, s[0]); put32(&mut d, big, e[2]); put32(&mut d, big, 0); put32(&mut d, big, 0);
+    d.push(1); d.push(0); put16(&mut d, big, 3);
+    let mut i = 0;
+    while i < 3 {
+        put32(&mut d, big, s[i]); put32(&mut d, big, e[i]); put32(&mut d, big, vals[i].to_bits());
+        i += 1;
+    }
+    let mut chrom_info = Vec::with_capacity(1);
+    chrom_info.push(ChromInfo { name: String::from("a"), id: 0, length: u32::MAX });
+    let info = BBIFileInfo {
+        filetype: BBIFile::BigWig,
+        header: BBIHeader {
+            endianness: Endianness::Little, version: 4, field_count: 0, defined_field_count: 0, zoom_levels: 0,
+            chromosome_tree_offset: 0, full_data_offset: 84, full_index_offset: 0, full_index_tree_offset: None,
+            auto_sql_offset: 0, total_summary_offset: 0, uncompress_buf_size: 0,
+        },
+        zoom_headers: Vec::new(),
+        chrom_info,
+    };
+    BigWigRead { info, read: ScriptedFile { cur: crate::verif_support::LoopCursor::new(d), script: [48, 7, 7, 7], k: 0, block: (84, 60), block_reads: 0 } }
+}
+
